@@ -234,6 +234,14 @@ func (group *Group) Dispose() {
 	if group.psPubSession != nil {
 		group.psPubSession.Dispose()
 	}
+	// a relay pull is an input session like the publishers above: left alone it kept pulling from the origin (and feeding
+	// the disposed group) after the shutdown
+	if group.pullProxy.rtmpSession != nil {
+		group.pullProxy.rtmpSession.Dispose()
+	}
+	if group.pullProxy.rtspSession != nil {
+		group.pullProxy.rtspSession.Dispose()
+	}
 
 	// the sets are emptied, not set to nil: a session whose play / GET / DESCRIBE was already on its way when the
 	// server was told to shut down is still added to its (disposed) group afterwards, and an assignment to a nil
